@@ -1350,6 +1350,14 @@ fn split_invariance(rng: &mut Rng, stats: &mut Stats) -> Option<Violation> {
             let i = rng.usize_below(blk.len());
             blk[i] ^= 1 << rng.below(8);
         }
+        2 => {
+            // a literal field with a zero-length name in front (HPACK can express it, HTTP/2 cannot use it): rejected,
+            // and rejected wherever the block is cut - also right behind it
+            let at = if blk.first().map_or(false, |b| b & 0xe0 == 0x20) { hr::decode_int(&blk, 5).map(|(_, n)| n).unwrap_or(0) } else { 0 };
+            for (k, x) in [0x00u8, 0x00, 0x01, b'x'].into_iter().enumerate() {
+                blk.insert(at + k, x);
+            }
+        }
         _ => {}
     }
     let fresh = |history: &[Vec<u8>]| {
